@@ -138,6 +138,7 @@ type Person struct {
 	{Name: "obool", Type: "OBool", Src: `
 type OBool struct {
 	B *bool
+	N int32
 }
 `},
 	{Name: "flat3", Type: "Flat3", Src: `
@@ -145,6 +146,61 @@ type Flat3 struct {
 	A int64
 	B *string
 	C []int32
+}
+`},
+	{Name: "samename", Type: "Same", Src: `
+type D struct {
+	V int32
+}
+
+type B struct {
+	D D
+	X *int32
+}
+
+type B2 struct {
+	D D
+}
+
+type Same struct {
+	B  B
+	B2 B2
+	Z  []int64
+}
+`},
+	{Name: "reqdeep", Type: "ReqDeep", Src: `
+type R3 struct {
+	V int64
+	S string
+	T bool
+}
+
+type R2 struct {
+	R3 R3
+	W  *int32
+}
+
+type ReqDeep struct {
+	ID int32
+	R2 R2
+}
+`},
+	{Name: "nest3", Type: "Nest3", Src: `
+type N3 struct {
+	A string
+	B *int32
+}
+
+type N2 struct {
+	Name string
+	Lvl  *int32
+	N3   []N3
+}
+
+type Nest3 struct {
+	ID   int32
+	N2   *N2
+	Tail []int64
 }
 `},
 }
